@@ -20,7 +20,8 @@ CONSTANTS Kinds,      \* two-ended link kinds offered to constructors
           InitBV, InitBU,   \* objects that exist initially
           UniEnds,    \* BOOLEAN: universes may be link ends too
           DoEmit,     \* BOOLEAN: print transitions
-          OnlyOps     \* if non-empty, only calls with these op names are offered
+          OnlyOps,    \* if non-empty, only calls with these op names are offered
+          AllowNone   \* BOOLEAN: None is offered as an end / argument of link calls
 
 VARIABLES S, last
 
@@ -29,6 +30,7 @@ View == S
 
 SeqsUpTo(T, n) == UNION {[1..m -> T] : m \in 0..n}
 
+NoneArg   == IF AllowNone THEN {0} ELSE {}
 EndObjs   == (1..S.bv) \cup (IF UniEnds THEN {UObj(k) : k \in 1..S.bu} ELSE {})
 BornUnis  == {UObj(k) : k \in 1..S.bu}
 BornLaws  == {L \in Laws : S.bl[L]}
@@ -36,14 +38,14 @@ TwoLinks  == {e \in BornLinks(S) : S.kind[e] \in TwoKinds}
 
 LinkCalls ==
   (IF S.nl < NL
-     THEN {Call("new", k, <<x, y>>, <<>>) : k \in Kinds, x \in EndObjs \cup {0}, y \in EndObjs \cup {0}}
-          \cup (IF UseN THEN {Call("lnew", "N", vs, <<>>) : vs \in SeqsUpTo(EndObjs \cup {0}, MaxArg)} ELSE {})
+     THEN {Call("new", k, <<x, y>>, <<>>) : k \in Kinds, x \in EndObjs \cup NoneArg, y \in EndObjs \cup NoneArg}
+          \cup (IF UseN THEN {Call("lnew", "N", vs, <<>>) : vs \in SeqsUpTo(EndObjs \cup NoneArg, MaxArg)} ELSE {})
      ELSE {})
-  \cup {Call("setv", "", <<e, i, n>>, <<>>) : e \in TwoLinks, i \in {1, 2}, n \in EndObjs \cup {0}}
+  \cup {Call("setv", "", <<e, i, n>>, <<>>) : e \in TwoLinks, i \in {1, 2}, n \in EndObjs \cup NoneArg}
   \cup {Call("vadd", "", <<v, e>>, <<>>) : v \in EndObjs, e \in BornLinks(S)}
   \cup {Call("vrem", "", <<v, e>>, <<>>) : v \in EndObjs, e \in BornLinks(S)}
-  \cup {Call("ladd", "", <<e, v>>, <<>>) : e \in BornLinks(S), v \in EndObjs \cup {0}}
-  \cup {Call("lunl", "", <<e, v>>, <<>>) : e \in BornLinks(S), v \in EndObjs \cup {0}}
+  \cup {Call("ladd", "", <<e, v>>, <<>>) : e \in BornLinks(S), v \in EndObjs \cup NoneArg}
+  \cup {Call("lunl", "", <<e, v>>, <<>>) : e \in BornLinks(S), v \in EndObjs \cup NoneArg}
 
 ExplCalls ==
   (IF S.nl < NL
